@@ -467,6 +467,50 @@ func c09Scenarios() []*concScenario {
 		closeSession(x, s)
 	}, sessionPost)
 
+	// H12: shutdown from two places at once (a signal handler and a deferred cleanup): every Close is called by two
+	// goroutines
+	add("H12", 3, func(x *concExec) {
+		concReset()
+		s, _ := concSession()
+		x.data["session"] = s
+		a, _ := arp.New(s)
+		h6, _ := icmp.New6(s)
+		d, err := dhcp4.Config{Mode: dhcp4.ModeSecondaryServer, NetfilterIP: netip.MustParsePrefix("192.168.0.129/25"), DNSServer: ip4rtr, LeaseFilename: "leases.yaml"}.New(s)
+		if err != nil {
+			x.fail("setup", err.Error())
+			return
+		}
+		n := dns.VerifNew(s)
+		shutdown := func() {
+			d.Close()
+			a.Close()
+			h6.Close()
+			n.Close()
+			s.Close()
+		}
+		threads(shutdown, shutdown)
+		vsched.WaitIdle()
+		x.observe("closed")
+	}, sessionPost)
+
+	// H13: the packet loop's read fails (the interface went away) || Session.Close
+	add("H13", 3, func(x *concExec) {
+		concReset()
+		s, _ := concSession()
+		x.data["session"] = s
+		threads(
+			func() {
+				buf := make([]byte, packet.EthMaxSize)
+				_, _, err := s.ReadFrom(buf)
+				x.observe(fmt.Sprintf("read=%v", err))
+			},
+			func() {
+				s.Close()
+			},
+		)
+		vsched.WaitIdle()
+	}, sessionPost)
+
 	// H8: Session.Close || purge with a host going offline || packet loop
 	add("H8", 4, func(x *concExec) {
 		concReset()
